@@ -12,6 +12,7 @@ from __future__ import annotations
 
 import copy
 import itertools
+import json
 import zoneinfo
 from datetime import datetime, timedelta, timezone
 
@@ -31,7 +32,7 @@ TECHNIQUE = (
 )
 RULE = (
     "pages: all tuples of page sizes >=0 with <=P pages summing to n<=N, x timeseries x {cond,project,sort present/absent} x 3 sites (+ invalid sites); get_sessions_by_time x start/end/min_energy present/absent; "
-    "times: 30-min lattice (seconds 0/59) over DST-change and ordinary days x 7 zones, top-level and time-series fields; state = (pages consumed, items yielded); "
+    "times: 30-min lattice (seconds 0/59) over DST-change and ordinary days x 7 zones, top-level and time-series fields, and every ordered zone pair with identical strings parsed alternately; state = (pages consumed, items yielded); "
     "non-trivial = paging with >=2 pages of which one is empty or >=3 pages; instants within 2 h of a DST change"
 )
 ASSUMPTIONS = [
@@ -87,6 +88,11 @@ def space(tier, seed):
     items.append({"block": "interleave", "cap": 1500 if tier == "quick" else 20000})
     for z in ZONES:
         items.append({"block": "times", "zone": z, "tier": tier})
+    # the same timestamp strings met in documents of two different zones, one after the other in one process
+    for za in ZONES:
+        for zb in ZONES:
+            if za != zb:
+                items.append({"block": "zonepair", "zones": [za, zb], "tier": tier})
     return items
 
 
@@ -129,14 +135,19 @@ def run_pages(item, only=None):
     for s in sizes:
         pages.append(docs[k : k + s])
         k += s
-    combos = list(itertools.product(("caltech", "jpl", "office001"), (False, True), (None, 'kWhDelivered > 5 and userID == "x"'), (None, '{"sessionID": 1}'), (None, "connectionTime")))
+    combos = list(itertools.product(("caltech", "jpl", "office001"), (False, True), (None, 'kWhDelivered > 5 and userID == "x"'), (None, '{"sessionID": 1}', '{"kWhDelivered": 1, "connectionTime": 1, "siteID": 1}'), (None, "connectionTime")))
     for site, ts, cond, project, sort in combos:
         ctx = {"site": site, "ts": ts, "cond": cond, "project": project, "sort": sort}
         if only is not None and only != ctx:
             continue
         if site != "caltech" and (cond is None) != (sort is None):
             continue  # the other sites run the all-present / all-absent corners; caltech runs the full cube
-        server = FakeServer(copy.deepcopy(pages), base=BASE)
+        if project is not None and "kWh" in project and (site != "caltech" or ts):
+            continue
+        # the server honours a projection the way Eve does: the named fields plus _id
+        keep = None if project is None else set(json.loads(project)) | {"_id"}
+        served = copy.deepcopy(pages) if keep is None else [[{k: v for k, v in d.items() if k in keep} for d in pg] for pg in pages]
+        server = FakeServer(served, base=BASE)
         client = DataClient("tok-123")
         stats["n"] += 1
         got = []
@@ -150,8 +161,8 @@ def run_pages(item, only=None):
         except Exception as exc:
             rep("pages:exception:%s" % type(exc).__name__, "get_sessions over pages %s raised %r" % (sizes, exc), repr(exc), None, ctx)
             continue
-        ids = [d.get("sessionID") for d in got]
-        want = [d["sessionID"] for d in docs]
+        ids = [d.get("_id") for d in got]
+        want = [d["_id"] for d in docs]
         if ids != want:
             if sorted(ids) == sorted(want):
                 sig = "pages:order"
@@ -192,10 +203,24 @@ def run_pages(item, only=None):
                     break
         # dates were converted in place
         for d, src in zip(got, docs):
-            if not isinstance(d.get("connectionTime"), datetime) or d.get("doneChargingTime") is not None and not isinstance(d.get("doneChargingTime"), datetime):
+            if keep is not None:
+                src = {k: v for k, v in src.items() if k in keep}
+            if set(d) != set(src):
+                rep("pages:fields-added-or-dropped", "yielded document has fields %s, the server sent %s" % (sorted(d), sorted(src)), sorted(d), sorted(src), ctx)
+                break
+            if any(isinstance(src[k], str) and k.endswith("Time") and not isinstance(d[k], datetime) for k in src) or any(src[k] is None and d[k] is not None for k in src):
                 rep("pages:dates-not-parsed", "yielded document still carries string dates", str(d.get("connectionTime")), None, ctx)
                 break
-            if d.get("siteID") != "0002" or d.get("userID") is not None or d.get("kWhDelivered") != src["kWhDelivered"]:
+            bad_instant = False
+            for k in src:
+                if isinstance(src[k], str) and k.endswith("Time") and isinstance(d[k], datetime):
+                    want_i = datetime.strptime(src[k], "%a, %d %b %Y %H:%M:%S GMT")
+                    if d[k].tzinfo is None or d[k].astimezone(timezone.utc).replace(tzinfo=None) != want_i:
+                        bad_instant = True
+            if bad_instant:
+                rep("pages:dates-instant", "a yielded document's time field is naive or denotes another instant than the server's string", None, None, ctx)
+                break
+            if any(d[k] != src[k] for k in src if not k.endswith("Time")):
                 rep("pages:fields-altered", "non-date fields altered", None, None, ctx)
                 break
         stats["out"].add((len(sizes), 0 in sizes, n))
@@ -413,6 +438,58 @@ def run_times(item, only=None):
     return viol, stats
 
 
+def run_zonepair(item, only=None):
+    """documents of zone A, zone B and zone A again carrying byte-identical timestamp strings (top-level fields, then
+    time series): what one document was parsed to must not influence the next (state kept between calls)"""
+    za, zb = item["zones"]
+    viol, stats = [], {"n": 0, "states": [], "out": set(), "nt": False, "ntset": set()}
+
+    def rep(sig, what, o=None, e=None, ctx=None):
+        if len(viol) < 20:
+            viol.append((sig.replace("times:", "times:two-zones:", 1), what + " (documents of %s and %s parsed alternately)" % (za, zb), o, e, ctx))
+
+    utc = timezone.utc
+    days = (DST_DAYS[za][:2] + DST_DAYS[zb][:2] + ORDINARY[:1]) if item["tier"] == "quick" else (DST_DAYS[za] + DST_DAYS[zb] + ORDINARY)
+    for (y, m, d) in days:
+        base = datetime(y, m, d, 0, 0, 0, tzinfo=utc) - timedelta(hours=14)
+        instants = [base + timedelta(minutes=30 * k, seconds=7) for k in range(0, 2 * 52)]
+        if only is not None:
+            if only.get("ts_day") is not None and list(only["ts_day"]) != [y, m, d]:
+                continue
+            if only.get("ts_day") is None:
+                instants = [datetime.fromisoformat(only["instant"])]
+        strings = [x.strftime("%a, %d %b %Y %H:%M:%S GMT") for x in instants]
+        if only is None or only.get("ts_day") is None:
+            for x, s_ in zip(instants, strings):
+                for z in (za, zb, za):
+                    stats["n"] += 1
+                    doc = {"timezone": z, "connectionTime": s_, "disconnectTime": s_, "doneChargingTime": None}
+                    try:
+                        parse_dates(doc)
+                    except Exception as exc:
+                        rep("times:exception:%s" % type(exc).__name__, "parse_dates raised %r for %s" % (exc, s_), repr(exc), None, {"instant": x.isoformat()})
+                        break
+                    ok = check_dt(doc["connectionTime"], x, zoneinfo.ZoneInfo(z), rep, z, stats, "field") and check_dt(doc["disconnectTime"], x, zoneinfo.ZoneInfo(z), rep, z, stats, "field")
+                    if not ok:
+                        break
+        if only is None or only.get("ts_day") is not None:
+            tsctx = {"ts_day": [y, m, d]}
+            for z in (za, zb, za):
+                stats["n"] += 1
+                doc = {"timezone": z, "connectionTime": strings[0], "chargingCurrent": {"current": list(range(len(strings))), "timestamps": list(strings)}}
+                parse_dates(doc)
+                ok = True
+                for x, g in zip(instants, doc["chargingCurrent"]["timestamps"]):
+                    if not check_dt(g, x, zoneinfo.ZoneInfo(z), rep, z, stats, "timeseries", tsctx):
+                        ok = False
+                        break
+                if not ok:
+                    break
+    stats["nt"] = True
+    stats["out"].add(("zonepair", za, zb, len(viol)))
+    return viol, stats
+
+
 def check_dt(got, instant, ztz, rep, zone, stats, where, ctx=None):
     ctx = ctx or {"instant": instant.isoformat()}
     if not isinstance(got, datetime) or got.tzinfo is None or got.utcoffset() is None:
@@ -432,7 +509,7 @@ def check_dt(got, instant, ztz, rep, zone, stats, where, ctx=None):
 
 
 def execute(item, only=None):
-    return {"pages": run_pages, "bytime": run_bytime, "times": run_times, "interleave": run_interleave}[item["block"]](item, only)
+    return {"pages": run_pages, "bytime": run_bytime, "times": run_times, "interleave": run_interleave, "zonepair": run_zonepair}[item["block"]](item, only)
 
 
 def run(item):
@@ -444,10 +521,10 @@ def run(item):
         acc.state(s)
     for o in st["out"]:
         acc.outcome(o)
-    if item["block"] == "times":
+    if item["block"] in ("times", "zonepair"):
         for x in st["ntset"]:
             acc.nt(x)
-        acc.outcome(("times", item["zone"]))
+        acc.outcome(("times", item.get("zone") or tuple(item["zones"])))
     elif st["nt"]:
         acc.nt((item["block"], tuple(item.get("sizes", ()))))
     acc.count("cases_" + item["block"], st["n"])
